@@ -80,6 +80,19 @@ def gen_cases(rng, tier):
     pick = early[:40] + direct[:20] if tier == "quick" else src
     for k, c in enumerate(pick):
         cases.append(["uc%d" % k, "c11", "ua", c[2], c[3] + ";probe", c[4], c[5]])
+    # the ACK for the 2xx of a session refresh (the only ACK the library builds inside a dialog): it carries the re-INVITE's number,
+    # also when the application created other requests in the dialog between the re-INVITE and its answer
+    k = 0
+    for se in (90, 40):
+        for n_between in (0, 1, 3):
+            ex = ("Contact: <sip:peer-a@10.9.9.9:5070;transport=udp>\r\nSupported: timer\r\nRequire: timer\r\nSession-Expires: %d;refresher=uac\r\n" % se).encode().hex()
+            t = (se - 10) * 1000 + 1000
+            steps = ["0:invite", "1000:resp:200:a:" + ex]
+            tt = t + 1000
+            for _ in range(n_between):
+                steps.append("%d:between" % tt); tt += 500
+            steps += ["%d:resp2" % tt, "%d:wait" % (tt + 5000)]
+            cases.append(["ur%d" % k, "c11", "ua", "uac", "se=1800;refresh=do;between", ",".join(steps), "1"]); k += 1
     return cases
 
 
@@ -110,6 +123,16 @@ def _ua_oracle(case, impl):
             return ["the %d response to the dialog-creating INVITE carries no To-tag (script %s)" % (code, case[5])]
     if len(set(t for _, t in tags)) > 1:
         return ["responses to the dialog-creating INVITE carry different To-tags: %r" % sorted(set(tags))]
+    # the ACK of a refresh: the number of the re-INVITE it acknowledges
+    if case[0].startswith("ur"):
+        reinv = [m.group(1) for m in re.finditer(r"W:INVITE_\S*?\|cseq=(\d+)_INVITE\|", impl)]
+        acks = [m.group(1) for m in re.finditer(r"W:ACK_\S*?\|cseq=(\d+)_ACK\|", impl)]
+        if len(set(reinv)) < 2:
+            return ["the refresh re-INVITE did not go out (INVITE numbers on the wire: %r)" % sorted(set(reinv))]
+        if not acks:
+            return ["no ACK for the 2xx of the refresh re-INVITE on the wire"]
+        if any(a != reinv[-1] for a in acks):
+            return ["the ACK for the 2xx of the refresh re-INVITE carries CSeq %s, the re-INVITE had %s" % (acks, reinv[-1])]
     # caller side: the request created inside the new dialog goes to the Contact of the peer's response along the reversed Record-Route
     for m in re.finditer(r"probe:(\w+):uri=([^/]*)/route=(\S*?)@\d+", impl):
         tag, uri, route = m.groups()
